@@ -9,9 +9,10 @@ def correspond(ctx):
     ctx.extra["rule"] = ("random multigraphs n<=6, edge flags as variables/negations/compound/constants, both routes for the cycle, "
                          "the primitive route for the path; grid frames up to 3x3; emitted program (with the line graph's edge set "
                          "canonicalised) and the returned is_passed array vs the Lean model")
-    graphcorr.run_cases(ctx, graphcorr.case_cycle, ctx.n(300, 4000), "cycle", with_ids=True, native_sets=True)
-    graphcorr.run_cases(ctx, graphcorr.case_path, ctx.n(200, 3000), "path", with_ids=True, native_sets=True)
-    graphcorr.run_cases(ctx, graphcorr.case_frame_cycle, ctx.n(60, 600), "frame", with_ids=True, native_sets=True)
+    graphcorr.run_cases(ctx, graphcorr.case_cycle, ctx.n(300, 4000), "cycle", with_ids=True, native_sets=True,
+                        bigs=graphcorr.graph_bigs() + graphcorr.graph_bigs("sparse"))
+    graphcorr.run_cases(ctx, graphcorr.case_path, ctx.n(200, 3000), "path", with_ids=True, native_sets=True, bigs=graphcorr.graph_bigs("sparse"))
+    graphcorr.run_cases(ctx, graphcorr.case_frame_cycle, ctx.n(60, 600), "frame", with_ids=True, native_sets=True, bigs=graphcorr.frame_bigs())
     if not ctx.quick():
         for f in search(ctx, None, budget=40):
             ctx.disagree("semantic", what=f.what, data=f.data)
@@ -114,8 +115,100 @@ def _check_frame(H, W, prim):
     return None
 
 
+def _check_edge_patterns(n, edges, prim, path, patterns):
+    """Selected edge sets of a medium / large graph (see graphs.edge_patterns): satisfiability and the returned is_passed values."""
+    from cspuz import graph as G
+    mk = graphs.mk_graph(n, edges)
+    m = len(edges)
+    st = {}
+
+    def builder(s):
+        vs = [s.bool_var() for _ in range(m)]
+
+        def call():
+            f = G.active_edges_single_path if path else G.active_edges_single_cycle
+            r = f(s, vs, mk, use_graph_primitive=prim)
+            st["passed"] = [exprio.pexpr(x) for x in r.data]
+        return call
+    decls, cs, base, _ = graphs.real_program(builder)
+    for name, pat in patterns:
+        want, passed = (spec_path if path else spec_cycle)(n, edges, pat)
+        model = exprio.solve_prog(decls, cs, base, {f"b{i}": pat[i] for i in range(m)})
+        if (model is not None) != want:
+            return name, [edges[k] for k in range(m) if pat[k]], ("sat", model is not None), ("expected", want)
+        if model is not None:
+            got = [model[k] for k in st["passed"]]        # (is_passed is determined by the edge flags: any model shows it)
+            if got != passed:
+                return name, [edges[k] for k in range(m) if pat[k]], ("is_passed true at", [v for v in range(n) if got[v]]), \
+                    ("expected", [v for v in range(n) if passed[v]])
+    return None
+
+
+def _check_frame_patterns(H, W, prim, patterns):
+    """Selected segment sets of a larger BoolGridFrame (see graphs.frame_loop_patterns)."""
+    from cspuz import graph as G
+    from cspuz.grid_frame import BoolGridFrame
+    st = {}
+
+    def builder(s):
+        fr = BoolGridFrame(s, H, W)
+        st["nf"] = len(s.variables)
+
+        def call():
+            r = G.active_edges_single_cycle(s, fr, use_graph_primitive=prim)
+            st["passed"] = [exprio.pexpr(x) for x in r.data]
+        return call
+    decls, cs, base, _ = graphs.real_program(builder)
+    segs = graphs.frame_segments(H, W)
+    edges = [(a[0] * (W + 1) + a[1], b[0] * (W + 1) + b[1]) for a, b in segs]
+    n = (H + 1) * (W + 1)
+    for name, pat in patterns:
+        want, passed = spec_cycle(n, edges, pat)
+        model = exprio.solve_prog(decls, cs, base, {f"b{i}": pat[i] for i in range(st["nf"])})
+        if (model is not None) != want:
+            return name, [segs[k] for k in range(len(segs)) if pat[k]], ("sat", model is not None), ("expected", want)
+        if model is not None and [model[k] for k in st["passed"]] != passed:
+            return name, [segs[k] for k in range(len(segs)) if pat[k]], ("is_passed", [model[k] for k in st["passed"]]), ("expected", passed)
+    return None
+
+
+BIG_FRAMES = ((6, 6), (5, 5), (4, 8), (7, 9), (15, 16))
+
+
 def search(ctx, why, budget=None):
     found = {}
+    # medium / LARGE graphs and frames: several small cycles far apart in the index range (more than 32 / 64 / 256 vertices)
+    for (n, edges) in graphs.big_graphs() + graphs.big_graphs("sparse"):
+        for path in (False, True):
+            for prim in ((True,) if path else (False, True)):
+                key = "big:" + ("path" if path else "cycle") + (":prim" if prim else ":aux")
+                if key in found or (prim and len(edges) > 100 and n > 64):
+                    continue         # (the line graph of a long graph is big; the few-edge large graphs cover the primitive route)
+                try:
+                    bad = _check_edge_patterns(n, edges, prim, path, graphs.edge_patterns(n, edges))
+                except Exception as e:
+                    bad = ("exception", None, core.err_name(e), str(e)[:200])
+                ctx.count("search:" + key)
+                if bad:
+                    found[key] = Finding(
+                        key[4:] + ":large-graph",
+                        f"active_edges_single_{'path' if path else 'cycle'}(use_graph_primitive={prim}) on a graph with {n} vertices and "
+                        f"{len(edges)} edges, active edges ({bad[0]}) = {bad[1] if bad[1] is None or len(bad[1]) <= 14 else str(bad[1][:6]) + ' ... ' + str(bad[1][-6:])}: {bad[2]} but {bad[3]}",
+                        {"big": True, "n": n, "edges": edges, "prim": prim, "path": path, "pattern_name": bad[0], "active_edges": bad[1]})
+    for (H, W) in BIG_FRAMES:
+        for prim in (False, True):
+            key = "big:frame" + (":prim" if prim else ":aux")
+            if key in found or (prim and H * W > 40):
+                continue
+            try:
+                bad = _check_frame_patterns(H, W, prim, graphs.frame_loop_patterns(H, W))
+            except Exception as e:
+                bad = ("exception", None, core.err_name(e), str(e)[:200])
+            ctx.count("search:" + key)
+            if bad:
+                found[key] = Finding("cycle:frame:large", f"active_edges_single_cycle on a {H}x{W} BoolGridFrame (prim={prim}), active segments "
+                                     f"({bad[0]}) = {bad[1]}: {bad[2]} but {bad[3]}",
+                                     {"bigframe": True, "H": H, "W": W, "prim": prim, "pattern_name": bad[0], "segments": bad[1]})
     for (n, edges) in graphs.small_graphs(ctx.rng, budget or ctx.n(24, 50), 5):
         if len(edges) > 8 or any(a == b for a, b in edges):
             continue
@@ -132,7 +225,8 @@ def search(ctx, why, budget=None):
                 if bad:
                     found[key] = Finding(
                         key + (":empty-edge-set" if (path and isinstance(bad[0], list) and not any(bad[0])) else ""),
-                        f"active_edges_single_{'path' if path else 'cycle'}(use_graph_primitive={prim}) on n={n} edges={edges} active={bad[0]}: {bad[1]} but {bad[2]}",
+                        f"active_edges_single_{'path' if path else 'cycle'}(use_graph_primitive={prim}) on n={n} edges={edges} active={bad[0]}: {bad[1]} but {bad[2]}"
+                        + graphs.history_note(n, edges),
                         {"n": n, "edges": edges, "prim": prim, "path": path, "pattern": bad[0]})
     for (H, W) in ((0, 0), (1, 1), (1, 2), (2, 1)):
         for prim in (False, True):
@@ -150,6 +244,23 @@ def search(ctx, why, budget=None):
 
 
 def replay(ctx, data):
+    if data.get("big"):
+        edges = [tuple(e) for e in data["edges"]]
+        act = [tuple(e) for e in (data["active_edges"] or [])]
+        pat, left = [], list(act)
+        for e in edges:
+            if e in left:
+                left.remove(e)
+                pat.append(True)
+            else:
+                pat.append(False)
+        bad = _check_edge_patterns(data["n"], edges, data["prim"], data["path"], [(data.get("pattern_name"), pat)])
+        return Finding("c06:replay", f"still fails: {bad}", data) if bad else None
+    if data.get("bigframe"):
+        segs = graphs.frame_segments(data["H"], data["W"])
+        act = {(tuple(a), tuple(b)) for a, b in (data["segments"] or [])}
+        bad = _check_frame_patterns(data["H"], data["W"], data["prim"], [(data.get("pattern_name"), [s in act for s in segs])])
+        return Finding("c06:replay", f"still fails: {bad}", data) if bad else None
     if data.get("frame"):
         bad = _check_frame(data["H"], data["W"], data["prim"])
     else:
